@@ -457,6 +457,16 @@ def replay(run, path):
     c = json.loads(open(path).read())
     rng = random.Random(c.get('seed', 0))
     ok = True
+    if c.get('operation') == 'list export':
+        for it in range(40):
+            ts, pl = make_graphs(rng)
+            for gx in (ts, pl):
+                for why in list_exports_are_snapshots(gx):
+                    run.violation(dict(c, why=why), note=why)
+                    print('replayed', path, 'violations', len(run.violations))
+                    return 1
+        print('replayed', path, 'violations', 0)
+        return 0
     for it in range(40):
         ts, pl = make_graphs(rng)
         g, thunk, kind = ops_table(ts, pl, rng)[c['operation']]
